@@ -144,7 +144,25 @@ def parse_unit(path):
                         ent[1].loops = {}
                         ent[1].proofs = []
                         ent[1].rewrites = [r for r in ent[1].rewrites if r[0] in ("N9",)]
-            u.entries += sub.entries
+            # an entry that an earlier include already brought in (same item / function path, same raw text) is not repeated:
+            # two units may share type items and assumed contracts; the first contract of a function wins (both are proved in their units)
+            def ent_key(e):
+                if e[0] == "raw":
+                    return ("raw", e[1])
+                if e[0] == "rawin":
+                    return ("rawin", e[2], e[1])
+                if e[0] == "item":
+                    return ("item", rustlex.norm_ws(e[1].path))
+                if e[0] == "fn":
+                    return ("fn", rustlex.norm_ws(e[1].path), e[1].opts.get("as"), e[1].opts.get("arm_pat"), e[1].opts.get("arm_state"))
+                return (id(e),)
+            have = set(ent_key(e) for e in u.entries)
+            for e in sub.entries:
+                k_ = ent_key(e)
+                if k_ in have:
+                    continue
+                have.add(k_)
+                u.entries.append(e)
             u.pathmap += sub.pathmap
             u.autoproof += [x for x in sub.autoproof if x not in u.autoproof]
             u.autoinv += [x for x in sub.autoinv if x not in u.autoinv]
